@@ -15,6 +15,8 @@ use serde::{Deserialize, Serialize};
 use serde_json::{json, Value};
 use tower_service::Service;
 
+mod conc;
+
 use sim::cli::{drive, parse_args, Engine};
 use sim::kit::{Stats, Violation};
 use sim::model::{contents_short, fold, Contents, QOp, Version};
@@ -76,10 +78,28 @@ pub struct Req {
   pub t: Transport,
 }
 
+/// A block of requests that are in flight at the same time, after the
+/// sequential part of the case.
+#[derive(Clone, Debug, Serialize, Deserialize, PartialEq)]
+pub struct ConcSpec {
+  pub reqs: Vec<Req>,
+  /// at most this many requests in flight
+  pub width: u8,
+  pub seed: u64,
+  /// explicit executor choices (replay); the PRNG continues where the list ends
+  #[serde(default)]
+  pub schedule: Vec<u32>,
+  /// `cancel[i] = k`: the client of request `i` goes away at executor step `k`
+  #[serde(default)]
+  pub cancel: Vec<Option<u64>>,
+}
+
 #[derive(Clone, Debug, Serialize, Deserialize, PartialEq)]
 pub struct HttpCase {
   pub max_body: u32,
   pub reqs: Vec<Req>,
+  #[serde(default)]
+  pub conc: Option<ConcSpec>,
 }
 
 const MAX_BODY: u32 = 16 * 1024;
@@ -235,7 +255,16 @@ fn gen_case(rng: &mut Rng, c24: bool, thorough: bool) -> HttpCase {
     kind: ReqKind::Init { bad: false },
     t: gen_transport(rng, false),
   });
-  let n = if rng.chance(3, 4) { 5 + rng.usize(12) } else { 15 + rng.usize(if thorough { 60 } else { 25 }) };
+  // a third of the cases end in a block of concurrent requests (short
+  // sequential part, so that most of the run is the block)
+  let with_conc = rng.chance(1, 3);
+  let n = if with_conc {
+    rng.usize(6)
+  } else if rng.chance(3, 4) {
+    5 + rng.usize(12)
+  } else {
+    15 + rng.usize(if thorough { 60 } else { 25 })
+  };
   for _ in 0..n {
     let w: [u32; 13] = if c24 { [12, 10, 6, 8, 3, 3, 8, 3, 2, 2, 2, 8, 0] } else { [22, 16, 10, 14, 3, 4, 4, 2, 0, 0, 2, 0, 0] };
     let kind = match rng.weighted(&w) {
@@ -305,7 +334,57 @@ fn gen_case(rng: &mut Rng, c24: bool, thorough: bool) -> HttpCase {
       ..Default::default()
     },
   });
-  HttpCase { max_body: MAX_BODY, reqs }
+  let conc = if with_conc {
+    let k = 2 + rng.usize(5);
+    let mut creqs = Vec::new();
+    for _ in 0..k {
+      // add, bulk, delete, commit, search, stats, refresh, compact
+      let kind = match rng.weighted(&[28, 18, 12, 26, 8, 3, 2, 4]) {
+        0 => {
+          let inv = rng.chance(1, 4);
+          ReqKind::Add {
+            docs: gen_docs(rng, &ids, &mut ver, inv, true),
+          }
+        }
+        1 => {
+          let inv = rng.chance(1, 4);
+          ReqKind::Bulk {
+            docs: gen_docs(rng, &ids, &mut ver, inv, false),
+            malformed: false,
+          }
+        }
+        2 => {
+          let plain: Vec<String> = ids.iter().filter(|i| i.trim().len() == i.len() && !i.chars().any(|c| c.is_control())).cloned().collect();
+          ReqKind::Delete {
+            ids: (0..1 + rng.usize(2)).map(|_| rng.pick(&plain).clone()).collect(),
+          }
+        }
+        3 => ReqKind::Commit,
+        4 => ReqKind::Search { variant: 0 },
+        5 => ReqKind::Stats,
+        6 => ReqKind::Refresh,
+        _ => ReqKind::Compact,
+      };
+      let faulty = c24 && rng.chance(1, 2);
+      let t = gen_transport(rng, faulty);
+      creqs.push(Req { kind, t });
+    }
+    let mut cancel: Vec<Option<u64>> = vec![None; k];
+    if rng.chance(1, 4) {
+      let i = rng.usize(k);
+      cancel[i] = Some(rng.below(30));
+    }
+    Some(ConcSpec {
+      reqs: creqs,
+      width: 2 + rng.below(3) as u8,
+      seed: rng.next(),
+      schedule: Vec::new(),
+      cancel,
+    })
+  } else {
+    None
+  };
+  HttpCase { max_body: MAX_BODY, reqs, conc }
 }
 
 struct Built {
@@ -527,6 +606,10 @@ async fn send(router: &axum::Router, req: Request<Body>) -> Result<Resp, String>
   })
 }
 
+async fn send_owned(router: axum::Router, req: Request<Body>) -> Result<Resp, String> {
+  send(&router, req).await
+}
+
 fn error_shape_ok(body: &[u8]) -> bool {
   match serde_json::from_slice::<Value>(body) {
     Ok(v) => v.pointer("/error/type").map(|t| t.is_string()).unwrap_or(false) && v.pointer("/error/reason").map(|t| t.is_string()).unwrap_or(false),
@@ -584,12 +667,15 @@ fn contents_from_search(body: &[u8]) -> Result<Contents, String> {
 struct RunOut {
   violations: Vec<Violation>,
   trace: Vec<String>,
+  /// executor choices of the concurrent block (for pinning a replay)
+  choices: Vec<u32>,
 }
 
 async fn run_async(case: &HttpCase, dir: &Path, stats: &mut Stats) -> RunOut {
   let mut out = RunOut {
     violations: Vec::new(),
     trace: Vec::new(),
+    choices: Vec::new(),
   };
   let args = searchlite_http::ServeArgs::parse_from([
     "searchlite-http",
@@ -927,12 +1013,271 @@ async fn run_async(case: &HttpCase, dir: &Path, stats: &mut Stats) -> RunOut {
       break;
     }
   }
+  if let Some(spec) = &case.conc {
+    if initialised && out.violations.is_empty() {
+      run_conc(case, spec, &router, &mut queue, &mut committed, stats, &mut out, &mut grams).await;
+    }
+  }
   for w in grams.windows(3) {
     stats.fingerprints.insert(hash_bytes(11, w.join(">").as_bytes()));
   }
   stats.add("steps", case.reqs.len() as u64);
   stats.inc("evaluations");
   out
+}
+
+/// The concurrent block: see conc.rs. Continues the queue model of the
+/// sequential part.
+#[allow(clippy::too_many_arguments)]
+async fn run_conc(case: &HttpCase, spec: &ConcSpec, router: &axum::Router, queue: &mut Vec<QOp>, committed: &mut Contents, stats: &mut Stats, out: &mut RunOut, grams: &mut Vec<String>) {
+  use conc::{HEvent, HOp};
+  let n = spec.reqs.len();
+  let sched = conc::Sched::new();
+  let hooks: std::sync::Arc<dyn searchlite_http::verif_rt::RtHooks> = std::sync::Arc::new(sched.clone());
+  searchlite_http::verif_rt::set_thread_hooks(Some(hooks));
+  let mut chooser = conc::Chooser {
+    fixed: spec.schedule.clone(),
+    pos: 0,
+    rng: Rng::new(spec.seed),
+  };
+  let builts: Vec<Built> = spec.reqs.iter().map(|r| build(&r.kind)).collect();
+  let mut make = |i: usize| -> conc::ReqFuture<Result<Resp, String>> { Box::pin(send_owned(router.clone(), make_request(&builts[i], &spec.reqs[i].t))) };
+  let res = conc::run_block(n, spec.width.max(1) as usize, &mut make, &spec.cancel, &sched, &mut chooser, 20_000).await;
+  searchlite_http::verif_rt::set_thread_hooks(None);
+  stats.inc("probe.concurrent_blocks");
+  stats.add("probe.blocking_task_switches", res.switches);
+  stats.add("sim_steps_concurrent", res.steps);
+  if res.max_live_tasks >= 2 {
+    stats.inc("probe.blocking_tasks_overlapped");
+  }
+  out.choices = res.choices.clone();
+  out.trace.extend(res.trace.iter().map(|t| format!("c {}", t)));
+  let sched_fp: Vec<String> = res.trace.iter().map(|t| t.split_once(' ').map(|x| x.1.to_string()).unwrap_or_default()).collect();
+  stats.fingerprints.insert(hash_bytes(13, sched_fp.join(">").as_bytes()));
+  if res.budget_exhausted {
+    out.violations.push(Violation::new(
+      &["C24"],
+      "no-response",
+      "concurrent-block-stuck",
+      case.reqs.len(),
+      format!("the concurrent block made no progress within {} executor steps: {}", res.steps, res.trace.iter().rev().take(12).cloned().collect::<Vec<_>>().join(" | ")),
+    ));
+    return;
+  }
+  let mut events: Vec<HEvent> = Vec::new();
+  let describe = |i: usize| -> String { format!("{} {}", builts[i].method, builts[i].path) };
+  for i in 0..n {
+    let req = &spec.reqs[i];
+    let name = kind_name(&req.kind);
+    stats.inc(&format!("op.{}", name));
+    let t = &req.t;
+    let total_len = builts[i].body.len() + t.pad as usize;
+    let oversize = total_len > case.max_body as usize;
+    let stalled = t.stall_after.is_some();
+    let broken = t.break_after.is_some();
+    let valid_ops = |docs: &Vec<DocSpec>| -> Vec<QOp> {
+      docs
+        .iter()
+        .filter_map(|d| match d {
+          DocSpec::Valid { id, ver } => {
+            let doc = make_doc(Profile::Basic, id, *ver);
+            Some(QOp::Add {
+              id: id.clone(),
+              v: Version {
+                ver: *ver,
+                stored: stored_projection(Profile::Basic, &doc),
+              },
+            })
+          }
+          _ => None,
+        })
+        .collect()
+    };
+    let tm = &res.timing[i];
+    match &res.outputs[i] {
+      None => {
+        // the client went away; the request may or may not have taken effect
+        stats.inc("fault.client_gone");
+        let op = match &req.kind {
+          ReqKind::Add { docs } | ReqKind::Bulk { docs, .. } if docs.iter().all(is_valid) => Some(HOp::MaybeWrite(valid_ops(docs))),
+          ReqKind::Delete { ids } => Some(HOp::MaybeWrite(ids.iter().map(|id| QOp::Del { id: id.clone() }).collect())),
+          ReqKind::Commit => Some(HOp::MaybeCommit),
+          _ => None,
+        };
+        if let Some(op) = op {
+          events.push(HEvent {
+            op,
+            invoke: tm.invoke,
+            ret: u64::MAX,
+            label: format!("{} (client gone)", describe(i)),
+          });
+        }
+        grams.push(format!("{}:gone", name));
+      }
+      Some(Err(e)) => {
+        out.violations.push(Violation::new(&["C24"], "no-response", name, case.reqs.len() + i, format!("concurrent {}: {}", describe(i), e)));
+      }
+      Some(Ok(resp)) => {
+        let st = resp.status;
+        grams.push(format!("{}:{}", name, st.as_u16()));
+        stats.add("sim_millis", resp.sim_elapsed.as_millis() as u64);
+        let body_txt = String::from_utf8_lossy(&resp.body).chars().take(200).collect::<String>();
+        if st.is_success() {
+          if !success_shape_ok(&req.kind, &resp.body) {
+            out.violations.push(Violation::new(&["C24"], "malformed-success-body", name, case.reqs.len() + i, format!("concurrent {} -> {} with body `{}`", describe(i), st, body_txt)));
+          }
+        } else if !error_shape_ok(&resp.body) {
+          out.violations.push(Violation::new(&["C24"], "malformed-error-body", &format!("{}:{}", name, st.as_u16()), case.reqs.len() + i, format!("concurrent {} -> {} with body `{}`", describe(i), st, body_txt)));
+        }
+        if st.is_server_error() && !stalled {
+          out.violations.push(Violation::new(&["C24"], "server-error", name, case.reqs.len() + i, format!("concurrent {} -> {} `{}`", describe(i), st, body_txt)));
+        }
+        let clean = !stalled && !broken && !oversize;
+        let op = match &req.kind {
+          ReqKind::Add { docs } | ReqKind::Bulk { docs, .. } => {
+            let all_valid = docs.iter().all(is_valid);
+            if st.is_success() {
+              if !all_valid {
+                out.violations.push(Violation::new(&["C23", "C24"], "invalid-document-acknowledged", name, case.reqs.len() + i, format!("concurrent {} containing an invalid document was acknowledged with {}", describe(i), st)));
+              }
+              HOp::Write(valid_ops(docs))
+            } else {
+              if clean && all_valid && !docs.iter().any(has_odd_id) {
+                out.violations.push(Violation::new(&["C24", "C23"], "unexpected-status", &format!("{}:{}", name, st.as_u16()), case.reqs.len() + i, format!("concurrent valid {} -> {} `{}`", describe(i), st, body_txt)));
+              }
+              if st.is_server_error() {
+                HOp::MaybeWrite(valid_ops(docs))
+              } else {
+                HOp::Nop
+              }
+            }
+          }
+          ReqKind::Delete { ids } => {
+            if st.is_success() {
+              HOp::Write(ids.iter().map(|id| QOp::Del { id: id.clone() }).collect())
+            } else {
+              if clean {
+                out.violations.push(Violation::new(&["C24", "C23"], "unexpected-status", &format!("{}:{}", name, st.as_u16()), case.reqs.len() + i, format!("concurrent valid {} -> {} `{}`", describe(i), st, body_txt)));
+              }
+              HOp::Nop
+            }
+          }
+          ReqKind::Commit => {
+            if st.is_success() {
+              HOp::Commit
+            } else {
+              out.violations.push(Violation::new(&["C24", "C23"], "unexpected-status", &format!("{}:{}", name, st.as_u16()), case.reqs.len() + i, format!("concurrent {} -> {} `{}`", describe(i), st, body_txt)));
+              HOp::MaybeCommit
+            }
+          }
+          ReqKind::Search { variant: 0 } if st.is_success() => match contents_from_search(&resp.body) {
+            Ok(c) => HOp::Read(c),
+            Err(e) => {
+              out.violations.push(Violation::new(&["C23"], "acknowledged-write-lost", "search", case.reqs.len() + i, format!("concurrent /search: {}", e)));
+              HOp::Nop
+            }
+          },
+          ReqKind::Stats if st.is_success() => match serde_json::from_slice::<Value>(&resp.body).ok().and_then(|v| v.get("documents").and_then(|d| d.as_u64())) {
+            Some(nd) => HOp::Count(nd),
+            None => HOp::Nop,
+          },
+          _ => {
+            if clean && !st.is_success() && matches!(req.kind, ReqKind::Search { variant: 0 } | ReqKind::Stats | ReqKind::Refresh | ReqKind::Compact) {
+              out.violations.push(Violation::new(&["C24"], "unexpected-status", &format!("{}:{}", name, st.as_u16()), case.reqs.len() + i, format!("concurrent {} -> {} `{}`", describe(i), st, body_txt)));
+            }
+            HOp::Nop
+          }
+        };
+        events.push(HEvent {
+          op,
+          invoke: tm.invoke,
+          ret: tm.ret.unwrap_or(u64::MAX),
+          label: format!("{} -> {}", describe(i), st.as_u16()),
+        });
+      }
+    }
+  }
+  if !out.violations.is_empty() {
+    return;
+  }
+  // ---- the block is over: commit, refresh, observe
+  let plain = Transport {
+    content_length: true,
+    ..Default::default()
+  };
+  let mut stamp = res.steps + 10;
+  let mut push_final = |op: HOp, label: &str, events: &mut Vec<HEvent>| {
+    events.push(HEvent {
+      op,
+      invoke: stamp,
+      ret: stamp + 1,
+      label: label.to_string(),
+    });
+    stamp += 2;
+  };
+  match send(router, make_request(&build(&ReqKind::Commit), &plain)).await {
+    Ok(r) if r.status.is_success() => push_final(HOp::Commit, "final POST /commit -> 200", &mut events),
+    Ok(r) => {
+      out.violations.push(Violation::new(&["C23", "C24"], "unexpected-status", &format!("commit:{}", r.status.as_u16()), case.reqs.len() + n, format!("/commit after the concurrent block -> {}", r.status)));
+      return;
+    }
+    Err(e) => {
+      out.violations.push(Violation::new(&["C24"], "no-response", "commit", case.reqs.len() + n, e));
+      return;
+    }
+  }
+  let _ = send(router, make_request(&build(&ReqKind::Refresh), &plain)).await;
+  let seen = match send(router, make_request(&build(&ReqKind::Search { variant: 0 }), &plain)).await {
+    Ok(r) if r.status.is_success() => match contents_from_search(&r.body) {
+      Ok(c) => c,
+      Err(e) => {
+        out.violations.push(Violation::new(&["C23"], "acknowledged-write-lost", "commit", case.reqs.len() + n, format!("/search after the concurrent block: {}", e)));
+        return;
+      }
+    },
+    Ok(r) => {
+      out.violations.push(Violation::new(&["C23", "C24"], "search-after-commit-failed", "search", case.reqs.len() + n, format!("/search match_all -> {}", r.status)));
+      return;
+    }
+    Err(e) => {
+      out.violations.push(Violation::new(&["C24"], "no-response", "search", case.reqs.len() + n, e));
+      return;
+    }
+  };
+  push_final(HOp::Read(seen.clone()), "final POST /search", &mut events);
+  if let Ok(r) = send(router, make_request(&build(&ReqKind::Stats), &plain)).await {
+    if let Some(nd) = serde_json::from_slice::<Value>(&r.body).ok().and_then(|v| v.get("documents").and_then(|d| d.as_u64())) {
+      push_final(HOp::Count(nd), "final GET /stats", &mut events);
+    }
+  }
+  let mut explored = 0u64;
+  let ok = conc::linearizable(queue, committed, &events, &mut explored);
+  stats.add("probe.linearization_states", explored);
+  if ok {
+    stats.inc("checks.concurrent_history_linearizable");
+    *committed = seen;
+    queue.clear();
+  } else {
+    let hist: Vec<String> = events.iter().map(|e| format!("[{}..{}] {}{}", e.invoke, if e.ret == u64::MAX { "-".to_string() } else { e.ret.to_string() }, e.label, match &e.op {
+      HOp::Write(ops) | HOp::MaybeWrite(ops) => format!(" {{{}}}", ops.iter().map(|o| o.short()).collect::<Vec<_>>().join(",")),
+      HOp::Read(c) => format!(" saw {:?}", contents_short(c)),
+      HOp::Count(k) => format!(" documents={}", k),
+      _ => String::new(),
+    })).collect();
+    out.violations.push(Violation::new(
+      &["C23"],
+      "acknowledged-write-lost",
+      "concurrent",
+      case.reqs.len() + n,
+      format!(
+        "no order of the acknowledged concurrent requests explains the observed results; committed before the block {:?}, queued {:?}; history (executor steps invoke..return): {}; schedule: {}",
+        contents_short(committed),
+        queue.iter().map(|o| o.short()).collect::<Vec<_>>(),
+        hist.join("; "),
+        res.trace.join(" | ")
+      ),
+    ));
+  }
 }
 
 fn run_case(case: &HttpCase, wroot: &Path, stats: &mut Stats) -> RunOut {
@@ -948,6 +1293,7 @@ fn run_case(case: &HttpCase, wroot: &Path, stats: &mut Stats) -> RunOut {
   match res {
     Ok(r) => r,
     Err(p) => RunOut {
+      choices: Vec::new(),
       violations: vec![Violation::new(
         &["C24"],
         "no-response",
@@ -979,8 +1325,57 @@ impl Engine for HttpEngine {
     let r = run_case(case, wroot, stats);
     (r.violations, r.trace)
   }
+  fn pin(&self, case: &HttpCase, _target: &Violation, wroot: &Path) -> HttpCase {
+    // make the schedule of the concurrent block explicit
+    let mut c = case.clone();
+    if case.conc.is_some() {
+      let mut st = Stats::default();
+      let r = run_case(case, wroot, &mut st);
+      if let Some(spec) = c.conc.as_mut() {
+        spec.schedule = r.choices;
+      }
+    }
+    c
+  }
   fn shrink(&self, case: &HttpCase) -> Vec<HttpCase> {
     let mut out = Vec::new();
+    if let Some(spec) = &case.conc {
+      let mut c = case.clone();
+      c.conc = None;
+      out.push(c);
+      for i in 0..spec.reqs.len() {
+        if spec.reqs.len() > 1 {
+          let mut c = case.clone();
+          let sp = c.conc.as_mut().unwrap();
+          sp.reqs.remove(i);
+          if i < sp.cancel.len() {
+            sp.cancel.remove(i);
+          }
+          out.push(c);
+        }
+        if spec.reqs[i].t != Transport::default() {
+          let mut c = case.clone();
+          c.conc.as_mut().unwrap().reqs[i].t = Transport {
+            content_length: true,
+            ..Default::default()
+          };
+          out.push(c);
+        }
+      }
+      if spec.cancel.iter().any(|c| c.is_some()) {
+        let mut c = case.clone();
+        c.conc.as_mut().unwrap().cancel = vec![None; spec.reqs.len()];
+        out.push(c);
+      }
+      // fewer context switches: drop single choices from the explicit schedule
+      if !spec.schedule.is_empty() && spec.schedule.len() <= 200 {
+        for i in 0..spec.schedule.len() {
+          let mut c = case.clone();
+          c.conc.as_mut().unwrap().schedule.remove(i);
+          out.push(c);
+        }
+      }
+    }
     let n = case.reqs.len();
     let mut chunk = (n / 2).max(1);
     loop {
